@@ -98,7 +98,11 @@ type world struct {
 	waitTms     int
 	handlerOn   bool
 	helperState string
-	helperDone  chan struct{}
+	// the twin: a second Limiter (limit 2) used alternately with the first by the submitter.
+	// Two limiters share nothing: neither may take the other's slots or wake the other's Wait.
+	tw                  *goz.Limiter
+	twSub, twDone, twIn int
+	helperDone          chan struct{}
 }
 
 func goid() uint64 {
@@ -267,8 +271,25 @@ func (w *world) helper(l *goz.Limiter) {
 	}
 }
 
+func (w *world) twinTask() {
+	w.mu.Lock()
+	w.twIn++
+	if w.twIn > 2 {
+		w.setViol("limit_exceeded", ".Go", "twin limiter (limit 2, used alternately with the first): %d functions running at once", w.twIn)
+	}
+	w.mu.Unlock()
+	w.hook("twin.body")
+	w.mu.Lock()
+	w.twIn--
+	w.twDone++
+	w.mu.Unlock()
+}
+
 func (w *world) submitter(l *goz.Limiter) {
 	w.hook("submitter.start")
+	if w.c.P("twin") == 1 {
+		w.tw = goz.NewLimiter(2)
+	}
 	for _, op := range w.c.Programs[0] {
 		switch op.Op {
 		case "Go":
@@ -287,6 +308,12 @@ func (w *world) submitter(l *goz.Limiter) {
 			w.mu.Lock()
 			w.subState = ""
 			w.mu.Unlock()
+			if w.tw != nil {
+				w.mu.Lock()
+				w.twSub++
+				w.mu.Unlock()
+				w.tw.Go(w.twinTask)
+			}
 		case "Join":
 			if w.helperDone != nil {
 				w.mu.Lock()
@@ -331,6 +358,14 @@ func (w *world) submitter(l *goz.Limiter) {
 				}
 			}
 			w.mu.Unlock()
+			if w.tw != nil {
+				w.tw.Wait()
+				w.mu.Lock()
+				if w.twDone != w.twSub && w.waitEarly == "" {
+					w.waitEarly = fmt.Sprintf("twin limiter: Wait() returned with %d of %d functions finished", w.twDone, w.twSub)
+				}
+				w.mu.Unlock()
+			}
 		}
 		w.hook("submitter.between-ops")
 	}
@@ -665,6 +700,9 @@ func gen(r *sim.Rng, tier string) *sim.Case {
 		c.Params["limit"] = r.Range(6, 20) // any limit, odd and even, with few scripted tasks
 	}
 	c.Params["handler"] = r.Pick(1, 3)
+	if r.Pct(10) {
+		c.Params["twin"] = 1 // a second Limiter is used alternately
+	}
 	nEff := c.Params["limit"]
 	if nEff < 1 {
 		nEff = 3
